@@ -226,6 +226,30 @@ func runC04(o Opts) error {
 	}
 	s.Extra["decode_calls_with_recover"] = decodes
 
+	// 1b. the hex dump the driver formats for every request and every received datagram (before it looks at the debug
+	// flag): every length 0..300, then random lengths up to the 2048-byte read buffer
+	dumps := 0
+	for i := 0; i < 300+nDecode/20; i++ {
+		n := i
+		if i > 300 {
+			n = r.Intn(2049)
+		}
+		buf := r.Bytes(n)
+		func() {
+			defer func() {
+				if rec := recover(); rec != nil {
+					s.Fail(map[string]any{"op": "dump", "buf_hex": hexs(buf), "length": n}, fmt.Sprintf("codec.Dump panicked on a %d-byte datagram: %v", n, rec))
+				}
+			}()
+			out := codec.Dump(buf, " ... ")
+			if n > 0 && len(out) < 2*n {
+				s.Fail(map[string]any{"op": "dump", "buf_hex": hexs(buf), "length": n}, "codec.Dump lost bytes")
+			}
+		}()
+		dumps++
+	}
+	s.Extra["dump_calls_with_recover"] = dumps
+
 	// 2. replies to every operation, every returned value rendered with %v and JSON
 	nAPI := 6000
 	if thorough {
